@@ -15,7 +15,7 @@ package lock
 //@ spec step_locked(c, locked0, nl, A, D) := ite(c >= A, nl + D, locked0)
 //@
 //@ func (*Lock).updateLockedState
-//@   property C03 C04 C18
+//@   property C03 C04 C16 C18
 //@   requires l.Modules.LockAfter >= 1 && l.Modules.LockWindow >= 0 && l.Modules.LockDuration >= 0
 //@   ensures[C04] step_is_spec: each Store.Save(?s) -> _ =>
 //@       (emits Now() -> ?nw :: emits Now() -> ?nl :: emits Now() -> ?ns :: nw <= nl && nl <= ns &&
@@ -34,6 +34,16 @@ package lock
 //@   ensures[C03] veto_redirects: result.0 ==> emits Redirect(?ro) :: ro.Code == 307 && ro.RedirectPath == l.Config.Paths.LockNotOK
 //@   ensures[C18] no_panic: !panics
 //@   ensures[C18] save_error_outcome: each Store.Save(_) -> ?e => e != nil ==> (result.1 == e && result.0 == false && !emits Redirect(_))
+//@   -- C16(a): for an account that is locked at every instant of the request (before and
+//@   -- after this attempt's own update), what the client can observe is one fixed redirect -
+//@   -- the same whether the password was correct or not (the right-hand side does not
+//@   -- mention wasCorrectPassword)
+//@   ensures[C16] locked_same: (!panics && (emits Store.Save(?s) -> ?e :: e == nil && (each Now() -> ?t => old(Locked(s)) > t && Locked(s) > t))) ==>
+//@       (result.0 == true &&
+//@        (emits Redirect(?ro) -> ?re :: result.1 == re && ro.Code == 307 && ro.RedirectPath == l.Config.Paths.LockNotOK &&
+//@            ro.Failure == loc(l.Authboss, TxtLocked) && ro.Success == "" && ro.FollowRedirParam == false &&
+//@            !(before Redirect(_)) && !(after Redirect(_))) &&
+//@        !emits Respond(_, _, _) && !emits Sess.Put(_, _) && !emits Sess.Del(_) && !emits Cook.Put(_, _) && !emits Cook.Del(_))
 //@
 //@ func (*Lock).BeforeAuth
 //@   property C03
